@@ -406,7 +406,7 @@ func (s replicaState) String() string {
 func TestReplicateTxMutations(t *testing.T) {
 	fx := primary(t)
 	perCase := 24
-	vk.Check(t, 5000, 160000, func(rt *rapid.T, c *vk.Case) {
+	vk.Check(t, 5000, 120000, func(rt *rapid.T, c *vk.Case) {
 		k := rapid.IntRange(0, len(fx.txs)-2).Draw(rt, "k")
 		dir := vk.Dir()
 		defer removeAll(dir)
